@@ -32,6 +32,16 @@ func configs(tier string) []config {
 		for _, bs := range []int{0, 1, 1 << 20} {
 			cs = append(cs, config{encdrv.K0, codec, bs, d0})
 		}
+		// large records: block byte lengths in the two- and three-byte varint ranges
+		for _, bs := range []int{0, 10000, 1 << 20} {
+			cs = append(cs, config{encdrv.K1big, codec, bs, 4})
+		}
+		// one record above 1 MiB between small ones (state carried in the encoder's buffer from block to block)
+		if codec != "deflate" {
+			for _, bs := range []int{0, 4096} {
+				cs = append(cs, config{encdrv.K1huge, codec, bs, 4})
+			}
+		}
 	}
 	return cs
 }
@@ -128,6 +138,9 @@ func bsClass(cf config) string {
 	case cf.bs == 1:
 		return "1"
 	}
+	if cf.k.Name != encdrv.K1.Name {
+		return "mid-large-records"
+	}
 	return "mid"
 }
 
@@ -192,7 +205,7 @@ func init() {
 			if tier == "thorough" {
 				d1, d0 = 8, 12
 			}
-			return fmt.Sprintf("explicit-state BFS over call histories of the real Encoder[T]: alphabet {encode(1B), encode(10B), encode(41B), flush} to depth %d for struct{S string} with block sizes {0,1,10,11,20,2^20}, and {encode(0B), flush} to depth %d for struct{} with block sizes {0,1,2^20}, × {null,deflate,snappy}; successor = replay of the shortest history on a fresh encoder + one call; states deduplicated on (pending records, sync-normalised output hash); after every call the whole output is parsed by the reference container parser and compared with the lock-step model {pending []record}; distinct_nontrivial counts distinct (config, history) pairs checked", d1, d0)
+			return fmt.Sprintf("explicit-state BFS over call histories of the real Encoder[T]: alphabet {encode(1B), encode(10B), encode(41B), flush} to depth %d for struct{S string} with block sizes {0,1,10,11,20,2^20}, the same with records of 102/9002/20003 bytes (block lengths in the 2- and 3-byte varint ranges) and with a 1.3 MB record between small ones (depth 4), and {encode(0B), flush} to depth %d for struct{} with block sizes {0,1,2^20}, × {null,deflate,snappy}; successor = replay of the shortest history on a fresh encoder + one call; states deduplicated on (pending records, sync-normalised output hash); after every call the whole output is parsed by the reference container parser and compared with the lock-step model {pending []record}; distinct_nontrivial counts distinct (config, history) pairs checked", d1, d0)
 		},
 		Assumptions: []string{
 			"records are drawn from a 3-size alphabet (1, 10, 41 encoded bytes) plus the zero-byte record; larger records and other block sizes are not explored",
